@@ -451,28 +451,39 @@ def gen_boundary_cases(rng):
 BOUNDARY_NAMES = sorted({c["boundary"] for c in gen_boundary_cases(C.Rng(0))})
 
 
-def generate(rng, tier):
-    na, nm, ng = (600, 400, 60) if tier == "quick" else (8000, 6000, 1500)
-    cases = gen_boundary_cases(rng)
-    # every subset of the three stypes, incl. the empty one, is always present
-    for k in range(4):
+def deterministic_prefix():
+    """Everything sanity() requires, WITHOUT the run's seed: hand-written boundaries, the greedy required stream,
+    every stype subset, every library as a long-lived history object, all (task, metric) pairs and all guard
+    sequences up to length 3 (own constant seed; the same in both tiers)."""
+    rng = C.Rng(REQUIRED_SEED + 1)
+    cases = gen_boundary_cases(rng) + required_cases()
+    for k in range(4):                               # every subset of the three stypes, incl. the empty one
         for sub in itertools.combinations(("categorical", "numerical", "embedding"), k):
             for _ in range(3):
-                cases.append(gen_adapter(rng, tier, list(sub)))
-    cases += [gen_adapter(rng, tier) for _ in range(na)]
+                cases.append(gen_adapter(rng, "quick", list(sub)))
     for lib in LIBS:                                 # histories: every library as the long-lived object
-        cases += [gen_history(rng, tier, main=lib) for _ in range(4)]
-    cases += [gen_history(rng, tier) for _ in range(na // 5)]
-    cases += [gen_metric(rng, tier) for _ in range(nm)]
+        cases += [gen_history(rng, "quick", main=lib) for _ in range(4)]
+    i = 0
     for t in TASKS:                                  # all (task, metric) pairs: finite, exhaustive
         for m in [None] + METRICS:
             cases.append({"kind": "pair", "task": t, "metric": m,
-                          "form": {"num_classes": [None, 2, 3, 10][(len(cases) // 3 + rng.randint(0, 3)) % 4]
-                                   if tier != "quick" else [None, 2, 3, 10][(len(cases) // 3) % 4],
-                                   "style": ["pos", "kw", "mixed"][len(cases) % 3]}})
+                          "form": {"num_classes": [None, 2, 3, 10][(i // 3) % 4], "style": ["pos", "kw", "mixed"][i % 3]}})
+            i += 1
     for L in range(1, 4):                            # all guard sequences up to length 3
         for ops in itertools.product(GOPS, repeat=L):
             cases.append({"kind": "guard", "ops": list(ops), "forms": guard_forms(rng, list(ops))})
+    for c in cases:
+        c["det"] = True
+    return cases
+
+
+def generate(rng, tier):
+    na, nm, ng = (600, 400, 60) if tier == "quick" else (8000, 6000, 1500)
+    cases = deterministic_prefix()
+    # the run's seed drives only this additional random stream
+    cases += [gen_adapter(rng, tier) for _ in range(na)]
+    cases += [gen_history(rng, tier) for _ in range(na // 5)]
+    cases += [gen_metric(rng, tier) for _ in range(nm)]
     cases += [gen_guard(rng, tier) for _ in range(ng)]
     return cases
 
@@ -1130,6 +1141,72 @@ def nontrivial_sig(case, obs):
     return json.dumps(["guard", case["ops"]])
 
 
+# every call form / representation that sanity() requires to be drawn (name -> values)
+NEED = {"tf_derive": ("None", "slice", "index", "mask", "range", "list"), "tf_call": ("pos", "kw"),
+        "num_dtype": ("float32", "float64"), "emb_form": ("list", "colslice", "ctor"),
+        "y": ("none", "long", "float32", "float64"), "metric_call": ("pos", "kw"),
+        "metric_dtypes:rmse": ("float32/float32", "float64/float64", "float32/float64"),
+        "metric_dtypes:mae": ("float32/float32", "float64/float64", "float32/float64"),
+        "metric_dtypes:acc_bin": ("long/float32", "long/float64", "int32/float32", "float32/float32", "bool/float32"),
+        "metric_dtypes:acc_multi": ("long/long", "long/float32", "int32/int32", "float32/float32"),
+        "init_style": ("pos", "kw", "mixed"), "init_num_classes": ("None", "2", "3", "10"),
+        "op:tune": ("pos", "kw", "extra_kwargs"), "op:tune_fail": ("raise", "noy_train", "noy_val"),
+        "op:predict": ("pos", "kw"), "op:save": ("str", "path", "kw", "nodir"), "op:load": ("str", "path", "kw"),
+        "hist_step": ("shared", "fresh")}
+
+
+def form_tokens(c):
+    """(name, value) pairs of the call forms / representations a case exercises"""
+    out = []
+    k = c["kind"]
+    for fcase in ([c] if k == "adapter" else c["frames"] if k == "history" else []):
+        f = fcase.get("form")
+        if f:
+            out.append(("tf_derive", str(f["derive"])))
+            out.append(("tf_call", f["call"]))
+            if fcase["num"]:
+                out.append(("num_dtype", f["num_dtype"]))
+            if fcase["emb"]:
+                out.append(("emb_form", f["emb_form"]))
+            out.append(("y", "none" if fcase["y"] is None else
+                        ("long" if fcase["y"]["dtype"] == "long" else f["y_float"])))
+    if k == "history":
+        out += [("hist_step", st["obj"]) for st in c["steps"]]
+    if k == "metric" and c.get("form"):
+        out.append(("metric_call", c["form"]["call"]))
+        out.append(("metric_dtypes:" + c["metric"], c["form"]["target_dtype"] + "/" + c["form"]["pred_dtype"]))
+    if k == "pair" and c.get("form"):
+        out.append(("init_style", c["form"]["style"]))
+        out.append(("init_num_classes", str(c["form"]["num_classes"])))
+    if k == "guard" and c.get("forms"):
+        out += [("op:" + op, str(fm)) for op, fm in zip(c["ops"], c["forms"])]
+    return out
+
+
+REQUIRED_SEED = 20200020
+
+
+def required_cases():
+    """A DETERMINISTIC stream (own constant seed, independent of VERIF_SEED and of the tier) that covers, greedily,
+    every call form sanity() requires.  Together with the hand-written boundary cases and the exhaustive
+    enumerations it satisfies sanity() alone; the run's seed only drives the additional random stream."""
+    rng = C.Rng(REQUIRED_SEED)
+    pool = ([gen_adapter(rng, "quick") for _ in range(150)] + [gen_history(rng, "quick") for _ in range(40)]
+            + [gen_metric(rng, "quick") for _ in range(300)] + [gen_guard(rng, "quick") for _ in range(60)]
+            + [{"kind": "guard", "ops": ["save", "tune", "save", "load", "predict"],
+                "forms": ["nodir", "extra_kwargs", "path", "kw", "kw"]}])
+    need = {(n, v) for n, vals in NEED.items() for v in vals if not n.startswith("init_")}
+    chosen = []
+    for c in pool:
+        new = set(form_tokens(c)) & need
+        if new:
+            chosen.append(dict(c, required=True))
+            need -= new
+    if need:
+        raise AssertionError(f"required stream does not cover {sorted(need)}")
+    return chosen
+
+
 def stats(cases, obss):
     d = {"total": 0, "kinds": {}, "adapter_subsets": {}, "adapter_rows": {}, "with_y": 0, "with_ignored": 0,
          "with_minus1": 0, "with_nan": 0, "rejected_empty": 0, "metric_kinds": {}, "binary_with_exact_half": 0,
@@ -1144,30 +1221,9 @@ def stats(cases, obss):
         k = c["kind"]
         d["kinds"][k] = d["kinds"].get(k, 0) + 1
         fr = d.setdefault("forms", {})
-
-        def cnt(name, val):
+        for name, val in form_tokens(c):
             fr.setdefault(name, {})
-            fr[name][str(val)] = fr[name].get(str(val), 0) + 1
-        for fcase in ([c] if k == "adapter" else c["frames"] if k == "history" else []):
-            f = fcase.get("form")
-            if f:
-                cnt("tf_derive", f["derive"])
-                cnt("tf_call", f["call"])
-                if fcase["num"]:
-                    cnt("num_dtype", f["num_dtype"])
-                if fcase["emb"]:
-                    cnt("emb_form", f["emb_form"])
-                cnt("y", "none" if fcase["y"] is None else
-                    ("long" if fcase["y"]["dtype"] == "long" else f["y_float"]))
-        if k == "metric" and c.get("form"):
-            cnt("metric_call", c["form"]["call"])
-            cnt("metric_dtypes:" + c["metric"], c["form"]["target_dtype"] + "/" + c["form"]["pred_dtype"])
-        if k == "pair" and c.get("form"):
-            cnt("init_style", c["form"]["style"])
-            cnt("init_num_classes", c["form"]["num_classes"])
-        if k == "guard" and c.get("forms"):
-            for op, fm in zip(c["ops"], c["forms"]):
-                cnt("op:" + op, fm)
+            fr[name][val] = fr[name].get(val, 0) + 1
         if k == "adapter":
             sub = "+".join(x for x in ("cat", "num", "emb") if c[x]) or "none"
             d["adapter_subsets"][sub] = d["adapter_subsets"].get(sub, 0) + 1
@@ -1207,9 +1263,18 @@ def stats(cases, obss):
 
 
 def sanity(cases, obss):
-    """Fail-closed distribution check."""
-    d = stats(cases, obss)
+    """Fail-closed distribution check.  Every coverage requirement is evaluated over the DETERMINISTIC prefix
+    alone (cases flagged det: boundaries, required stream, enumerations), so it cannot depend on the run's seed;
+    the ratio checks look at the whole run."""
+    det = [(c, o) for c, o in zip(cases, obss) if c is not None and c.get("det")]
+    d_all = stats(cases, obss)
+    d = stats([c for c, _ in det], [o for _, o in det])
     probs = []
+    if d_all["total"] - d["total"] <= 0:
+        probs.append("no random stream besides the deterministic prefix")
+    na_all = max(1, d_all["kinds"].get("adapter", 0))
+    if d_all["rejected_empty"] > 0.2 * na_all:
+        probs.append("too many rejected (empty) frames in the whole run")
     for b in BOUNDARY_NAMES:
         if d.get("boundaries", {}).get(b, 0) == 0:
             probs.append(f"boundary {b} not hit")
@@ -1229,16 +1294,7 @@ def sanity(cases, obss):
         probs.append("too many rejected (empty) frames")
     if d["with_y"] == na:
         probs.append("no frame without y")
-    need = {"tf_derive": ("None", "slice", "index", "mask", "range", "list"), "tf_call": ("pos", "kw"),
-            "num_dtype": ("float32", "float64"), "emb_form": ("list", "colslice", "ctor"),
-            "y": ("none", "long", "float32", "float64"), "metric_call": ("pos", "kw"),
-            "metric_dtypes:rmse": ("float32/float32", "float64/float64", "float32/float64"),
-            "metric_dtypes:mae": ("float32/float32", "float64/float64", "float32/float64"),
-            "metric_dtypes:acc_bin": ("long/float32", "long/float64", "int32/float32", "float32/float32", "bool/float32"),
-            "metric_dtypes:acc_multi": ("long/long", "long/float32", "int32/int32", "float32/float32"),
-            "init_style": ("pos", "kw", "mixed"), "init_num_classes": ("None", "2", "3", "10"),
-            "op:tune": ("pos", "kw", "extra_kwargs"), "op:tune_fail": ("raise", "noy_train", "noy_val"),
-            "op:predict": ("pos", "kw"), "op:save": ("str", "path", "kw", "nodir"), "op:load": ("str", "path", "kw")}
+    need = NEED
     for name, vals in need.items():
         for v in vals:
             if d.get("forms", {}).get(name, {}).get(v, 0) == 0:
